@@ -11,7 +11,7 @@ hypotheses are the ones named: random numbers are not negative (they are uniform
 relative factors / edge weights / betas are not negative.  That edge endpoints are active agents is C14's
 obligation and is not needed by any statement here (the model is total in the uid).
 -/
-import StarsimModel.Lemmas.Transmission
+import StarsimModel.Lemmas.TransmissionReal
 
 namespace StarsimModel.C12
 open StarsimModel.Transmission
@@ -418,6 +418,97 @@ theorem C12_validateBeta_rejects :
     validateBeta .invalid ["random"] = .error .invalidType := by
   refine ⟨by decide +kernel, by decide +kernel, by decide +kernel⟩
 
+/-! ### `set_outcomes` (congenital split) and the infection log -/
+
+/-- `set_congenital` gets `uids[congenital]`, `set_prognoses` gets `uids[~congenital]`. -/
+theorem C12_outcome_split_as_modelled :
+    Gen.outcomeSplit = ["set_congenital:congenital", "set_prognoses:~congenital"] := by decide
+
+theorem gen_isCongenital (a : Rat) : Gen.isCongenital a = decide (a ≤ 0) := by
+  unfold Gen.isCongenital
+  apply decide_eq_decide.mpr
+  constructor <;> intro h <;> linarith
+
+/-- **Outcomes.** Every new case is handed to exactly one of `set_congenital` (age ≤ 0) and `set_prognoses` (age > 0);
+    nothing is dropped, nothing is handled twice. -/
+theorem C12_outcomes_partition (age : Nat → Rat) (evs : List Event) :
+    (∀ e, e ∈ evs ↔ e ∈ congenitalCases age evs ∨ e ∈ prognosisCases age evs) ∧
+    (∀ e, ¬ (e ∈ congenitalCases age evs ∧ e ∈ prognosisCases age evs)) ∧
+    (congenitalCases age evs).length + (prognosisCases age evs).length = evs.length ∧
+    (∀ e ∈ congenitalCases age evs, age e.target ≤ 0) ∧ (∀ e ∈ prognosisCases age evs, 0 < age e.target) := by
+  refine ⟨?_, ?_, ?_, ?_, ?_⟩
+  · intro e
+    simp only [congenitalCases, prognosisCases, List.mem_filter]
+    constructor
+    · intro h
+      by_cases hc : Gen.isCongenital (age e.target) = true
+      · exact Or.inl ⟨h, hc⟩
+      · exact Or.inr ⟨h, by simpa using hc⟩
+    · rintro (h | h) <;> exact h.1
+  · intro e
+    simp only [congenitalCases, prognosisCases, List.mem_filter]
+    rintro ⟨⟨_, h1⟩, ⟨_, h2⟩⟩
+    rw [h1] at h2; simp at h2
+  · induction evs with
+    | nil => simp [congenitalCases, prognosisCases]
+    | cons e es ih =>
+      simp only [congenitalCases, prognosisCases, List.filter_cons] at ih ⊢
+      by_cases hc : Gen.isCongenital (age e.target) = true
+      · simp only [hc, ↓reduceIte, Bool.not_true, Bool.false_eq_true, List.length_cons]; omega
+      · have hc' : Gen.isCongenital (age e.target) = false := by simpa using hc
+        simp only [hc', Bool.false_eq_true, ↓reduceIte, Bool.not_false, List.length_cons]; omega
+  · intro e he
+    simp only [congenitalCases, List.mem_filter, gen_isCongenital, decide_eq_true_eq] at he
+    exact he.2
+  · intro e he
+    simp only [prognosisCases, List.mem_filter, gen_isCongenital, Bool.not_eq_true', decide_eq_false_iff_not, not_le] at he
+    exact he.2
+
+/-- **Log admissible.** Every entry written to the infection log by a step carries the step's time and is a reported
+    transmission event: its source was infectious, its target susceptible (and already born). -/
+theorem C12_log_admissible (now : Rat) (age : Nat → Rat) {s : DState} {nets : List Net} (hr : NonnegRand nets) :
+    ∀ l ∈ stepLog now age s nets, l.time = now ∧ ∃ ev ∈ infect s nets, ev.source = l.source ∧ ev.target = l.target ∧
+      0 < age ev.target ∧ s.susceptible l.target = true ∧ s.infectious l.source = true := by
+  intro l hl
+  simp only [stepLog, logEntries, List.mem_map] at hl
+  obtain ⟨ev, hev, rfl⟩ := hl
+  have hpos := (C12_outcomes_partition age (infect s nets)).2.2.2.2 ev hev
+  have hin : ev ∈ infect s nets := by
+    simp only [prognosisCases, List.mem_filter] at hev; exact hev.1
+  obtain ⟨_, _, _, _, _, _, _, _, _, _, hinf, _⟩ := C12_source_infectious_and_joined hr hin
+  exact ⟨rfl, ev, hin, rfl, rfl, hpos, (C12_target_susceptible hr hin).1, hinf⟩
+
+/-- **Log complete.** No transmission to a born agent goes unlogged … -/
+theorem C12_log_complete (now : Rat) (age : Nat → Rat) (s : DState) (nets : List Net) :
+    ∀ ev ∈ infect s nets, 0 < age ev.target → (⟨ev.source, ev.target, now⟩ : LogEntry) ∈ stepLog now age s nets := by
+  intro ev hev hage
+  simp only [stepLog, logEntries, List.mem_map]
+  refine ⟨ev, ?_, rfl⟩
+  simp only [prognosisCases, List.mem_filter, gen_isCongenital, Bool.not_eq_true', decide_eq_false_iff_not, not_le]
+  exact ⟨hev, hage⟩
+
+/-- … and nobody is logged twice in one step. -/
+theorem C12_log_once (now : Rat) (age : Nat → Rat) (s : DState) (nets : List Net) :
+    ((stepLog now age s nets).map (·.target)).Nodup := by
+  have h : (stepLog now age s nets).map (·.target) = (prognosisCases age (infect s nets)).map (·.target) := by
+    simp [stepLog, logEntries, List.map_map, Function.comp_def]
+  rw [h]
+  exact (C12_once_nodup s nets).sublist (List.filter_sublist.map _)
+
+/-! ### `SexualNetwork.net_beta` for arbitrary (fractional) `acts·dt`, over ℝ -/
+
+/-- The regenerated source expression at `ℝ` (`Real.rpow`): it is `w·(1 − (1 − β)^(acts·dt))`; zero disease beta gives
+    zero; for `w ≥ 0`, `acts·dt ≥ 0` it is monotone in `β ≤ 1` and stays within `[0, w]` for `β ∈ [0,1]`; and for whole
+    `acts·dt` it is the rational expression used by the executable model. -/
+theorem C12_netBeta_sexual_real :
+    (∀ w β a dt : ℝ, netBetaSexualR w β a dt = w * (1 - (1 - β) ^ (a * dt))) ∧
+    (∀ w a dt : ℝ, netBetaSexualR w 0 a dt = 0) ∧
+    (∀ w β β' a dt : ℝ, 0 ≤ w → β ≤ β' → β' ≤ 1 → 0 ≤ a * dt → netBetaSexualR w β a dt ≤ netBetaSexualR w β' a dt) ∧
+    (∀ w β a dt : ℝ, 0 ≤ w → 0 ≤ β → β ≤ 1 → 0 ≤ a * dt → 0 ≤ netBetaSexualR w β a dt ∧ netBetaSexualR w β a dt ≤ w) ∧
+    (∀ (w β : ℚ) (n : ℕ), netBetaSexualR (w : ℝ) (β : ℝ) (n : ℝ) 1 = ((Gen.netBetaSexual w β n : ℚ) : ℝ)) :=
+  ⟨netBetaSexualR_eq, netBetaSexualR_zero, fun _ _ _ _ _ he hle h1 hx => netBetaSexualR_mono he hle h1 hx,
+   fun _ _ _ _ he h0 h1 hx => netBetaSexualR_range he h0 h1 hx, netBetaSexualR_nat⟩
+
 /-! ### Non-vacuity: concrete states meeting the hypotheses, with non-trivial outcomes -/
 
 /-- six agents: 0,1 infectious; 2,3,4 susceptible (4 with zero relative susceptibility); 5 recovered -/
@@ -464,5 +555,13 @@ def exPool : Pool := { src := [0, 1, 5], dst := [2, 3, 4, 5], beta := 1/2, conta
 
 /-- trans = (1 + 2 + 0)/3 = 1; p(2) = 1/2·1·2 = 1; agent 3 has zero contacts, 4 zero rel_sus, 5 is not susceptible -/
 example : poolStep exState exPool (fun _ => 9/10) = [2] := by decide +kernel
+
+/-- ages: agent 2 is an unborn child (age −1/4), agent 3 is 30: at beta 1/2 agent 2 goes to `set_congenital`, agent 3 to
+    `set_prognoses` and is the only one logged -/
+def exAge : Nat → Rat := fun u => if u = 2 then -1/4 else 30
+
+example : congenitalCases exAge (infect exState (exNets (1/2))) = [⟨2, 0, 0⟩] ∧
+    prognosisCases exAge (infect exState (exNets (1/2))) = [⟨3, 1, 0⟩] ∧
+    stepLog 2001 exAge exState (exNets (1/2)) = [⟨1, 3, 2001⟩] := by decide +kernel
 
 end StarsimModel.C12
